@@ -742,3 +742,19 @@ def canaries(s, holder, tier):
         # perturbed spec: index 4 accepted
         return smt.prove(cond_of(fs, lambda o: o.kind == "return"), [z3.And(*[z3.And(1 <= x, x <= 4) for x in xs])], tier=tier)
     s.canary("C10.canary.range_1_to_4", range_canary)
+
+
+MANIFEST = {
+    "engine": "pyvc", "category": "proof",
+    "technique": "contract-based deductive verification: AST->SMT verification conditions (z3/cvc5) on cij/util/voigt.py",
+    "text": "Every function of cij/util/voigt.py is executed symbolically from its current source; per-path verification "
+            "conditions over unbounded integers are discharged by z3 (cvc5 second): range => canonical result, out of range "
+            "=> raises (for every integer), the quotient theorem F(x)=F(x') <=> x' in orbit(x) on the path summary, "
+            "multiplicity = class size, 3/3/15 classification, view round trips, and all spellings through create() "
+            "(strings up to length 6 over abstract characters, integers up to 7 digits). The property's own finite "
+            "quantifier (81 tuples, 36 pairs, spellings, out-of-range neighbours) is additionally enumerated completely "
+            "on the real code.",
+    "note": "Assumes the Python semantics listed in evidence.python_semantics_assumed (A-PYSEM; cross-checked against CPython "
+            "on 5^4 tuples + 8^2 pairs every run); trusts z3/cvc5 and the pyvc engine; bool/float arguments are outside the "
+            "contract's precondition type in {int,str}.",
+}
